@@ -1,7 +1,9 @@
 """Miscellaneous utility functions for training."""
 
+import copy
 import numpy as np
 from loguru import logger
+from omegaconf import DictConfig, OmegaConf
 from torch import nn
 import torch.distributed as dist
 from typing import Optional, Tuple
@@ -18,6 +20,18 @@ def is_distributed_initialized():
 def get_dist_rank():
     """Return the rank of the current process if torch.distributed is initialized."""
     return dist.get_rank() if is_distributed_initialized() else None
+
+
+def mask_api_key(config: DictConfig) -> DictConfig:
+    """Return a copy of the config that is safe to persist (wandb API key blanked).
+
+    The API key must never be written to disk (config files, checkpoints). The given
+    config is left untouched so the key stays available in memory for `wandb.login`.
+    """
+    config = copy.deepcopy(config)
+    if OmegaConf.select(config, "trainer_config.wandb.api_key", default=None):
+        config.trainer_config.wandb.api_key = ""
+    return config
 
 
 def xavier_init_weights(x):
